@@ -68,7 +68,7 @@ class Pattern:
 SIGNATURES: dict[str, list[str]] = {}
 EXTERNAL_SIGNATURES = {
     "write_csv": [["file"]], "write_parquet": [["file"]], "read_csv": [["source"]], "read_parquet": [["source"]],
-    "as_euler": [["seq", "degrees"]], "Series": [["name", "values"]],
+    "as_euler": [["seq", "degrees"]], "Rotation.from_euler": [["seq", "angles", "degrees"]], "Series": [["name", "values"]],
     "center_of_mass": [["input", "labels", "index"]], "map_coordinates": [["input", "coordinates"]], "gaussian_filter": [["input", "sigma"]],
     "gaussian_laplace": [["input", "sigma"]], "label": [["input", "structure"]], "zoom": [["input", "zoom"]], "pad": [["array", "pad_width", "mode"]],
     "distance_transform_edt": [["input"]], "binary_erosion": [["input", "structure"]], "binary_dilation": [["input", "structure"]],
@@ -93,6 +93,10 @@ def _signature_of(call: ast.Call):
     name = f.attr if isinstance(f, ast.Attribute) else (f.id if isinstance(f, ast.Name) else None)
     if isinstance(f, ast.Attribute) and isinstance(f.value, ast.Name) and (f.value.id + "." + f.attr) in SIGNATURES:
         return SIGNATURES[f.value.id + "." + f.attr]
+    if name == "cls":
+        # `cls(...)` in a classmethod: the constructors whose parameter lists contain every keyword used at the call
+        kws = {k.arg for k in call.keywords if k.arg is not None}
+        return [sig for sig in SIGNATURES.get("cls", []) if kws <= set(sig)] or None
     return SIGNATURES.get(name) if name else None
 
 
